@@ -77,6 +77,8 @@ pub fn generate(g: &mut G, _index: u64) -> Scenario {
                     if g.chance(1, 3) { Op::Send { h: s, id, work } } else { Op::Call { h: s, id, work } }
                 }
             };
+            // a caller that gives up does not abandon the invocation: only the limit does
+            let op = if matches!(op, Op::Call { .. }) && g.chance(1, 8) { Op::CancelAfter { polls: g.range(1, 2) as u32, op: Box::new(op) } } else { op };
             fam.sc.clients[c].ops.push(op);
             // idle gaps between messages (shorter and longer than the limit): the limit applies to
             // an invocation, not to the time the actor spent waiting for work
